@@ -41,6 +41,8 @@ CAT = {
     'Old': (I0, 'Old', 's', 's', 'value', 'Old', 3),
     # bound by decorator in the BASE class, on an interface for which the subclass has decorator bindings of its own
     'Inh': (I1, 'Inh', '', 's', 'value', 'Inh', 1),
+    # bound by decorator in a plain helper class listed AFTER the DBusObject-derived base: class Sub(Base, Helper)
+    'Mix': (I1, 'Mix', '', 's', 'value', 'Mix', 1),
 }
 
 
@@ -85,7 +87,13 @@ def build():
             self.log('Inh', (), None)
             return 'inh'
 
-    class Sub(Base):
+    class Helper:
+        @objects.dbusMethod(I1, 'Mix')
+        def mixed_in(self):
+            self.log('Mix', (), None)
+            return 'mix'
+
+    class Sub(Base, Helper):
         dbusInterfaces = [i1, i2]
 
         def dbus_Val(self, s):
@@ -329,7 +337,7 @@ class ObjectsDriver:
         key = find_key(c)
         want = {'Val': ['v:' + arg], 'Multi': ['m', 7], 'Arr': [['solo']], 'Struct': [['t', 3]], 'NoneRet': None,
                 'Defer': ['d:' + arg], 'Caller': [sender], 'Both1': ['one:' + sender], 'Both2': ['two'],
-                'Old': ['old:' + arg], 'Inh': ['inh'], 'Shared': ['sh']}.get(key, '?')
+                'Old': ['old:' + arg], 'Inh': ['inh'], 'Mix': ['mix'], 'Shared': ['sh']}.get(key, '?')
         body = m.body if m.body else None
         sig_ok = (m.signature or '') == CAT[key][3] if key else False
         return key if body == want and sig_ok else '?return %r sig %r' % (m.body, m.signature)
